@@ -8,7 +8,7 @@ from ..runner import Part
 PROPERTY = 'C13'
 LEVEL = 'model_checking'
 RULE = ('every sequence of <=k symbols over {connect-ok, connect-fail x {no keys, non-token challenge, silent device, transport connect error, device that answers the public key with another challenge}, close, shell, exec_out, '
-        'root, reboot, streaming_shell, creating a streaming_shell generator, draining a generator created earlier, starting a streaming_shell and leaving it suspended, abandoning the most recent suspended one, list, stat, pull->existing path, pull->fresh path, pull->BytesIO, push, a push the device rejects, a pull of a missing file, shell with a blank command, pull into a directory that does not exist, and list/stat/pull/push with an empty path} on one object, both twins, executed on '
+        'root, reboot, streaming_shell, creating a streaming_shell generator, draining a generator created earlier, starting a streaming_shell and leaving it suspended, abandoning the most recent suspended one, list, stat, pull->existing path, pull->fresh path, pull->BytesIO, push, a push the device rejects, a pull of a missing file, shell with a blank command, pull into a directory that does not exist, and list/stat/pull/push with an empty path, given positionally or by keyword} on one object, both twins, executed on '
         'the real device class; reference = the availability machine (True after connect-ok, False after close / any connect attempt that fails); oracle: operation '
         'while unavailable raises AdbConnectionError, empty path raises DevicePathInvalidError, in both cases zero bytes written to the transport and no local file '
         'created; `available` equals the machine flag after every step; operations while available return the model\'s ground truth. States = (machine flag, transport '
@@ -17,6 +17,7 @@ ASSUMPTIONS = ['adbsim is a faithful adbd model', 'sequences longer than the bou
 
 CONNECTS = {
     'connect-ok': {},
+    'connect-ok-latin1': {'_sim': {'banner': b'device::ro.product.name=sim;ro.product.model=Caf\xe9 One;features=shell_v2\0'}},     # the banner is opaque bytes
     'fail-nokeys': {'_sim': {'auth': {'first': 'token', 'sig': 'token', 'pub': 'never'}}},
     'fail-nontoken': {'_sim': {'auth': {'first': 'nontoken', 'sig': 'token', 'pub': 'never'}}, '_keys': [0]},
     'fail-silent': {'_sim': {'auth': {'first': 'silent'}}, 'transport_timeout_s': 0.5, 'read_timeout_s': 0.5},
@@ -28,7 +29,7 @@ FAIL_EXC = {'fail-nokeys': 'DeviceAuthError', 'fail-nontoken': 'InvalidResponseE
 OPS = ['shell', 'exec_out', 'root', 'reboot', 'streaming_shell', 'list', 'stat', 'pull', 'pull-path', 'pull-newpath', 'push', 'stream-drain', 'push-rejected', 'pull-missing', 'shell-blank', 'pull-newdir', 'stream-start']
 BLANK = ['', '  ', '\n']
 NEUTRAL = ['stream-create', 'stream-abandon']
-EMPTY = ['list-empty', 'stat-empty', 'pull-empty', 'push-empty', 'push-dir-empty']
+EMPTY = ['list-empty', 'stat-empty', 'pull-empty', 'push-empty', 'push-dir-empty', 'list-empty-kw', 'stat-empty-kw', 'pull-empty-kw', 'push-empty-kw']
 ALPHABET = list(CONNECTS) + ['close'] + OPS + EMPTY + NEUTRAL
 
 
@@ -56,8 +57,11 @@ def op_for(sym, i):
     e = ['', b'', None][i % 3]
     if sym == 'push-dir-empty':
         return ('push', ('dir', {'a': b'x' * 10} if i % 2 else {}, 'elsewhere'), ['', b''][i % 2])
+    e2 = ['', b''][i % 2]
     return {'list-empty': ('list', e), 'stat-empty': ('stat', e), 'pull-empty': ('pull', e, 'path'),
-            'push-empty': ('push', ('bytes', b'zz'), e)}[sym]
+            'push-empty': ('push', ('bytes', b'zz'), e),
+            'list-empty-kw': ('list', e2, {'_kwpath': True}), 'stat-empty-kw': ('stat', e2, {'_kwpath': True}), 'pull-empty-kw': ('pull', e2, 'bytesio', {'_kwpath': True}),
+            'push-empty-kw': ('push', ('bytes', b'zz'), e2, {'_kwpath': True})}[sym]
 
 
 def run_seq(params, ch):
@@ -75,7 +79,7 @@ def run_seq(params, ch):
             files_before = sorted(os.listdir(tmpdir()))
             if sym in CONNECTS:
                 r = s.op(('connect', dict(CONNECTS[sym])))
-                if sym == 'connect-ok':
+                if sym in ('connect-ok', 'connect-ok-latin1'):
                     flag = True
                     if r != ('ok', True):
                         viol.append({'msg': 'step %d connect to a healthy device gave %r' % (i, r)})
